@@ -14,6 +14,43 @@ type GCSConfig struct {
 	// bytes for every execution; statements without a shared access are not scheduling points
 	// (verifrt.SkipLocal), which keeps the thousands of local decoding steps out of the schedule space
 	Big bool `json:"big_filter,omitempty"`
+	// Two: thread i queries filter i (two filters of equal size over different items): immutable filters
+	// do not interfere with one another either.  Poison: before the threads start, one query is made
+	// on a MALFORMED filter (declared N larger than its data holds: the decoder runs into the end of
+	// the data), the error path on which pooled scratch space is most easily mishandled.
+	Two    bool `json:"two_filters,omitempty"`
+	Poison bool `json:"query_on_malformed_filter_first,omitempty"`
+}
+
+var gcsItems2 = [][]byte{[]byte("g"), []byte("h"), []byte("i"), []byte("j"), []byte("k"), []byte("l")}
+
+// gcsDo2: the alphabet of the two-filter configurations, relative to the thread's own filter
+var GCSTwoOps = []string{"Match:own", "Match:other", "MatchAny:own", "ZipMatchAny:own", "HashMatchAny:own", "HashMatchAny:other"}
+
+func gcsDo2(f *gcs.Filter, which int, op string) string {
+	own, other := []byte("c"), []byte("i")
+	if which == 1 {
+		own, other = other, own
+	}
+	var r bool
+	var err error
+	switch op {
+	case "Match:own":
+		r, err = f.Match(gcsKey, own)
+	case "Match:other":
+		r, err = f.Match(gcsKey, other)
+	case "MatchAny:own":
+		r, err = f.MatchAny(gcsKey, [][]byte{[]byte("q1"), own})
+	case "ZipMatchAny:own":
+		r, err = f.ZipMatchAny(gcsKey, [][]byte{[]byte("q1"), own, []byte("q2")})
+	case "HashMatchAny:own":
+		r, err = f.HashMatchAny(gcsKey, [][]byte{own})
+	case "HashMatchAny:other":
+		r, err = f.HashMatchAny(gcsKey, [][]byte{other, []byte("q3")})
+	default:
+		panic("unknown op " + op)
+	}
+	return fmt.Sprint(r, err)
 }
 
 // big-filter alphabet: members, a non-member, a query long enough to take MatchAny's hashing strategy
@@ -164,6 +201,32 @@ func RunGCS(cfg GCSConfig, choose func(step int, enabled []int, runningEnabled b
 			want[op] = gcsDo(seq, op)
 		}
 	}
+	var fs [2]*gcs.Filter
+	want2 := [2]map[string]string{{}, {}}
+	if cfg.Two {
+		for k, items := range [][][]byte{gcsItems, gcsItems2} {
+			fk, err := gcs.BuildGCSFilter(19, 784931, gcsKey, items)
+			if err != nil {
+				panic(err)
+			}
+			fs[k] = fk
+			seq, _ := gcs.BuildGCSFilter(19, 784931, gcsKey, items)
+			for _, op := range GCSTwoOps {
+				want2[k][op] = gcsDo2(seq, k, op)
+			}
+		}
+		f = fs[0]
+		if cfg.Poison {
+			nb, _ := fs[0].NBytes()
+			bad := append([]byte{}, nb...)
+			bad[0] = 60 // declares 60 elements; the data holds 6
+			if mf, err := gcs.FromNBytes(19, 784931, bad); err == nil {
+				mf.Match(gcsKey, []byte("zzz"))
+				mf.HashMatchAny(gcsKey, [][]byte{[]byte("zzz")})
+				mf.ZipMatchAny(gcsKey, [][]byte{[]byte("zzz")})
+			}
+		}
+	}
 	before, _ := f.NPBytes()
 	results := make([][]string, len(cfg.Progs))
 	bodies := make([]func(), len(cfg.Progs))
@@ -171,7 +234,11 @@ func RunGCS(cfg GCSConfig, choose func(step int, enabled []int, runningEnabled b
 		ti, prog := ti, prog
 		bodies[ti] = func() {
 			for _, op := range prog {
-				results[ti] = append(results[ti], do(f, op))
+				if cfg.Two {
+					results[ti] = append(results[ti], gcsDo2(fs[ti%2], ti%2, op))
+				} else {
+					results[ti] = append(results[ti], do(f, op))
+				}
 			}
 		}
 	}
@@ -204,6 +271,13 @@ func RunGCS(cfg GCSConfig, choose func(step int, enabled []int, runningEnabled b
 	}
 	for ti, prog := range cfg.Progs {
 		for i, op := range prog {
+			if cfg.Two {
+				if i >= len(results[ti]) || results[ti][i] != want2[ti%2][op] {
+					o.Class, o.Problem = "gcs/filters-interfere-with-each-other", fmt.Sprintf("thread %d (its own filter) %s: got %v want %s", ti, op, results[ti], want2[ti%2][op])
+					return o
+				}
+				continue
+			}
 			if i >= len(results[ti]) || results[ti][i] != want[op] {
 				o.Class, o.Problem = "gcs/concurrent-result-differs-from-sequential", fmt.Sprintf("thread %d %s: got %v want %s", ti, op, results[ti], want[op])
 				return o
